@@ -84,9 +84,9 @@ Definition run_file (v : val) : val :=
                       cmp_field F_F_END (VN mk) (VN ok) ++ (if (ok =? 2) && (mk =? 2) then cmp_field F_F_TOTAL (VN mb) (VN ob) else []))
                   ++ (if obs_chunks_ok opolls then [] else [fclause "chunks-non-empty-and-the-file-bytes"])
                   ++ (if negb truncated then
-                        (* the harness stops after 16 polls: a stream that has not finished by then (a range of
-                           more than a megabyte) must have delivered only good chunks within the range so far *)
-                        (if (snd (summary opolls) =? 0) && (16 <=? np) then
+                        (* the harness stops after 16 polls or 4 MiB: a stream that has not finished by then must have
+                           delivered only good chunks within the range so far *)
+                        (if snd (summary opolls) =? 0 then
                            (if obs_total opolls <=? e - a then [] else [fclause "intact-file-yields-exactly-the-range-then-ends"])
                          else if obs_has 2 opolls && negb (obs_has 1 (before_end opolls)) && (obs_total (before_end opolls) =? e - a) then []
                          else [fclause "intact-file-yields-exactly-the-range-then-ends"])
